@@ -256,3 +256,98 @@ Proof.
   rewrite (mapM_length _ _ _ Hidx), (mapM_length _ _ _ Hfs), combine_length.
   rewrite Forall_forall in Hlen. pose proof (Hlen x Hxin (combo, v) Hin) as E. cbn [fst] in E. rewrite E. apply Nat.min_id.
 Qed.
+
+(** * levels in range: the combinations of the crossings and the cells of the acceptance tables *)
+Lemma level_lt_at : forall p bd forder factors fid ln pf li,
+  mapM (sem_factor p bd forder) forder = Ok factors ->
+  pos_of forder fid = Ok pf -> level_index p fid ln = Ok li -> li < f_nlevels (nth pf factors dfactor0).
+Proof.
+  intros p bd forder factors fid ln pf li Hf Hpf Hli. destruct (pos_of_nth _ _ _ Hpf) as [Hlt Hnth].
+  pose proof (mapM_nth _ _ _ 0 dfactor0 pf Hf Hlt) as Hsf. rewrite Hnth in Hsf.
+  destruct (sem_factor_nlevels _ _ _ _ _ Hsf) as [fd [E1 E2]].
+  destruct (level_index_lt _ _ _ _ Hli) as [fd' [n [E1' [E2' Hlt']]]]. rewrite E1 in E1'. inversion E1'; subst fd'.
+  rewrite E2 in E2'. inversion E2'; subst. exact Hlt'.
+Qed.
+
+Lemma mult_levels_gen : forall p bd forder factors (xf : list nat) (combo : list name) idx fs,
+  mapM (sem_factor p bd forder) forder = Ok factors ->
+  mapM (fun fn : nat * name => level_index p (fst fn) (snd fn)) (combine xf combo) = Ok idx ->
+  mapM (pos_of forder) xf = Ok fs -> List.length combo = List.length xf ->
+  Forall2 (fun l cf => l < f_nlevels (nth cf factors dfactor0)) idx fs.
+Proof.
+  intros p bd forder factors xf. induction xf as [|f xf IH]; intros combo idx fs Hf Hidx Hfs Hlen.
+  - cbn in Hidx, Hfs. inversion Hidx; inversion Hfs. constructor.
+  - destruct combo as [|n combo]; [discriminate|]. cbn [combine mapM fst snd] in Hidx, Hfs.
+    inv_bind Hidx as l Hl Hidx. inv_bind Hidx as idx' Hidx' Hidx. inversion Hidx; subst idx.
+    inv_bind Hfs as cf Hcf Hfs. inv_bind Hfs as fs' Hfs' Hfs. inversion Hfs; subst fs.
+    constructor; [eapply level_lt_at; eauto|]. eapply IH; eauto.
+Qed.
+
+Theorem doc_sem_mult_levels : forall p ds, doc_sem p = Ok ds ->
+  forall c, In c (s_crossings (ds_sem ds)) -> forall im, In im (c_mult c) ->
+  Forall2 (fun l cf => l < f_nlevels (nth cf (s_factors (ds_sem ds)) dfactor0)) (fst im) (c_factors c).
+Proof.
+  intros p ds H c Hc im Him. unfold doc_sem, doc_sem_block in H. inv_bind H as bd Hbd H.
+  pose proof (doc_block_len _ _ _ Hbd) as Hlen. unfold sem_of_block in H.
+  inv_bind H as kinds Hk H. destruct (negb _); [discriminate|].
+  inv_bind H as depths Hd H. inv_bind H as factors Hf H. inv_bind H as crossings Hx H. inv_bind H as constraints Hcs H.
+  inversion H; subst ds; cbn [ds_sem s_crossings s_factors] in *. clear H.
+  destruct (mapM_in _ _ _ _ Hx Hc) as [x [Hxin Hsx]]. unfold sem_crossing in Hsx. destruct (_ =? 0); [discriminate|].
+  inv_bind Hsx as mult Hm Hsx. inv_bind Hsx as fs Hfs Hsx. inversion Hsx; subst c. cbn [c_mult c_factors] in *.
+  destruct (mapM_in _ _ _ _ Hm Him) as [[combo v] [Hin Hf']]. apply in_sort_by in Hin. cbn [fst snd] in Hf'.
+  inv_bind Hf' as idx Hidx Hf'. inversion Hf'; subst im. cbn [fst].
+  rewrite Forall_forall in Hlen. pose proof (Hlen x Hxin (combo, v) Hin) as E. cbn [fst] in E.
+  eapply mult_levels_gen; eauto.
+Qed.
+
+(** the acceptance table of a derived factor: every row has at most one column per dependency, and
+    every cell that names a level names a level of that dependency *)
+Definition row_ok (factors : list dfactor) (deps : list nat) (row : list (list (option nat))) : Prop :=
+  List.length row <= List.length deps /\
+  forall j col, nth_error row j = Some col ->
+    forall i, In (Some i) col -> i < f_nlevels (nth (nth j deps 0) factors dfactor0).
+
+Lemma enc_row_ok : forall p bd forder factors (deps pdeps : list nat) (cols : entry) row,
+  mapM (sem_factor p bd forder) forder = Ok factors -> mapM (pos_of forder) deps = Ok pdeps ->
+  mapM (fun dc : nat * list (option name) =>
+          dd <- fm p (fst dc) ;; ns <- level_names dd ;;
+          mapM (fun o : option name => match o with
+                                       | None => Ok None
+                                       | Some n => i <- of_option "ValueError: table name" (index_of String.eqb n ns) ;; Ok (Some i)
+                                       end) (snd dc)) (combine deps cols) = Ok row ->
+  row_ok factors pdeps row.
+Proof.
+  intros p bd forder factors deps. induction deps as [|d deps IH]; intros pdeps cols row Hf Hp Hrow.
+  - cbn in Hrow. inversion Hrow. split; [cbn; lia|]. intros j col Hj. destruct j; discriminate.
+  - cbn [mapM] in Hp. inv_bind Hp as pd Hpd Hp. inv_bind Hp as pdeps' Hp' Hp. inversion Hp; subst pdeps.
+    destruct cols as [|col cols]; [cbn in Hrow; inversion Hrow; split; [cbn; lia|intros j c Hj; destruct j; discriminate]|].
+    cbn [combine mapM fst snd] in Hrow. inv_bind Hrow as ecol Hecol Hrow. inv_bind Hrow as row' Hrow' Hrow. inversion Hrow; subst row.
+    destruct (IH pdeps' cols row' Hf Hp' Hrow') as [IH1 IH2]. split; [cbn; lia|].
+    intros j c Hj i Hi. destruct j as [|j]; cbn in Hj |- *.
+    + inversion Hj; subst c. inv_bind Hecol as dd Hdd Hecol. inv_bind Hecol as ns Hns Hecol.
+      destruct (mapM_in _ _ _ _ Hecol Hi) as [o [_ Ho]]. destruct o as [n|]; [|discriminate].
+      inv_bind Ho as i' Hi' Ho. inversion Ho; subst i'.
+      eapply (level_lt_at p bd forder factors d n pd i Hf Hpd). unfold level_index. rewrite Hdd. cbn [bind]. rewrite Hns. cbn [bind].
+      unfold of_option in Hi' |- *. destruct (index_of String.eqb n ns); [exact Hi'|discriminate].
+    + eapply IH2; eauto.
+Qed.
+
+Theorem doc_sem_tables_shape : forall p ds, doc_sem p = Ok ds ->
+  forall fd w, In fd (s_factors (ds_sem ds)) -> f_derived fd = Some w ->
+  forall rows, In rows (w_table w) -> forall row, In row rows -> row_ok (s_factors (ds_sem ds)) (w_deps w) row.
+Proof.
+  intros p ds H fd w Hfd Hw rows Hrows row Hrow. unfold doc_sem, doc_sem_block in H. inv_bind H as bd Hbd H. unfold sem_of_block in H.
+  inv_bind H as kinds Hk H. destruct (negb _); [discriminate|].
+  inv_bind H as depths Hd H. set (forder := map fst (sort_by _ depths)) in *.
+  inv_bind H as factors Hf H. inv_bind H as crossings Hx H. inv_bind H as constraints Hcs H.
+  inversion H; subst ds; cbn [ds_sem s_factors] in *. clear H.
+  destruct (mapM_in _ _ _ _ Hf Hfd) as [f [_ Hsf]]. unfold sem_factor in Hsf.
+  inv_bind Hsf as pfd Hpfd Hsf. inv_bind Hsf as nl Hnl Hsf.
+  destruct (is_simple pfd); [inversion Hsf; subst fd; discriminate|].
+  inv_bind Hsf as q Hq Hsf. destruct q as [[[deps width] stride] start].
+  match type of Hsf with (if ?c then _ else _) = _ => destruct c; [discriminate|] end.
+  inv_bind Hsf as tabs Ht Hsf. inv_bind Hsf as enc He Hsf. inv_bind Hsf as pdeps Hp Hsf. inversion Hsf; subst fd. cbn in Hw. inversion Hw; subst w.
+  cbn [w_table w_deps] in *. unfold enc_table in He.
+  destruct (mapM_in _ _ _ _ He Hrows) as [tab [_ Htab]]. destruct (mapM_in _ _ _ _ Htab Hrow) as [cols [_ Hcols]].
+  eapply enc_row_ok; eauto.
+Qed.
